@@ -212,6 +212,11 @@ def regenerate(repo, outdir):
     # D1: into_uri writes '&' between query pairs;  D25: rekey refuses a blank raw key
     flags["uriQueryAmpersand"] = has("askar-storage/src/options.rs", r"fn into_uri\(self\)[^#]*?uri\.push\('&'\)")
     flags["rekeyRefusesBlankRaw"] = has("askar-storage/src/backend/sqlite/mod.rs", r"fn rekey\([^#]*?RawKey\s*&&\s*pass_key\.is_empty\(\)[^#]*?method\.resolve\(pass_key\)")
+    # D2: StoreKey::unwrap_data checks the length before slicing off the nonce
+    flags["unwrapChecksLength"] = has("askar-storage/src/protect/store_key.rs", r"fn unwrap_data\([^#]*?ciphertext\.len\(\)\s*<\s*StoreKeyNonce::SIZE[^#]*?&ciphertext\[\.\.StoreKeyNonce::SIZE\]")
+    # D6: fetch_all_keys inserts the user: prefix after a leading '~';  D15: from_jwk_any has an "oct" branch
+    flags["keyFilterPrefixAfterTilde"] = has("src/store.rs", r"fn fetch_all_keys[^#]*?starts_with\('~'\)[^#]*?replace_range\(\s*at\.\.at\s*,\s*\"user:\"\)")
+    flags["jwkOctImport"] = has("askar-crypto/src/alg/any.rs", r"fn from_jwk_any[^#]*?\(\s*\"oct\"")
     fl = ["/- GENERATED by tools/extract.py from /repo on every run — do not edit. -/", "namespace Askar.Generated.Flags", ""]
     for k, v in flags.items():
         fl.append(f"def {k} : Bool := {'true' if v else 'false'}")
